@@ -39,7 +39,10 @@ for sd in sorted(glob.glob('/verif/seeded/*/')):
         problems.append(f'{seed}: own check {own} is silent (reported by {det})')
     if seed in old:
         lost = [p for p in old[seed]['detected_by'] if p not in det]
-        if lost:
+        if lost and own and own in det and not seed.startswith('revert-'):
+            # another property's check used to report it as well and no longer does: recorded, not a problem
+            print('NOTE', f'{seed}: no longer reported under {lost} (still reported by its own check {own})')
+        elif lost:
             problems.append(f'{seed}: listed for {lost} but the matrix no longer shows it')
     out.append({'seed': seed, 'detected_by': det, 'breaks': breaks})
 for p in problems:
